@@ -787,7 +787,25 @@ def translate_source():
         val = 'r' if sq else e
         L.append(f'        {"if" if k == 0 else "else if"} ch.{kw}.isNone then')
         L.append(f'          if {den} = 0 then none else some {struct((fld, val))}')
-    L += [f'        else some {struct()}', '  | _, _, _, _ => none', '', 'end Atomman.Gen.UC', '']
+    L += [f'        else some {struct()}', '  | _, _, _, _ => none', '']
+
+    # ---- atomman/__init__.py: the working units `import atomman` puts in force --------------------------------------
+    isrc = cm.source('atomman/__init__.py')
+    calls = [n.value for n in ast.parse(isrc).body
+             if isinstance(n, ast.Expr) and isinstance(n.value, ast.Call) and ast.unparse(n.value.func).endswith('reset_units')]
+    if len(calls) != 1:
+        raise TranslationError(f'atomman/__init__.py: {len(calls)} module-level calls of reset_units, expected one')
+    call = calls[0]
+    if ast.unparse(call.func) != 'unitconvert.reset_units' or len(call.args) > 1 or any(k.arg is None for k in call.keywords):
+        raise TranslationError(f'atomman/__init__.py: {ast.unparse(call)}')
+    seed_nodes = list(call.args) + [k.value for k in call.keywords if k.arg == 'seed']
+    seed_given = any(not (isinstance(n, ast.Constant) and n.value is None) for n in seed_nodes)
+    dkw = [(k.arg, _const(k.value, str, '__init__: working unit name')) for k in call.keywords if k.arg != 'seed']
+    L += ['/-! ### `atomman/__init__.py`: the call that sets the default working units -/', '',
+          f'def defaultSeedGiven : Bool := {"true" if seed_given else "false"}',
+          'def defaultKw : List (String × List Char) :=',
+          '  [' + ', '.join(f'({_lstr(k)}, {_lchars(v)})' for k, v in dkw) + ']', '',
+          'end Atomman.Gen.UC', '']
     return '\n'.join(L)
 
 
@@ -829,6 +847,7 @@ THEOREMS = [
     'C09.gen_parse_precedence', 'C09.gen_set_get_inverse', 'C09.reset_path_refuses_iff', 'C09.reset_path_which_refusal',
     'C09.choiceOf_count_le', 'C09.reset_path_named', 'C09.reset_call_refused_keeps_state',
     'C09.reset_call_chosen_units_one', 'C09.get_set_inverse', 'C09.value_unit_model_inverse', 'C09.uc_model_keys',
+    'C09.default_units_are_one', 'C09.gen_same_dim_ratio_invariant', 'C09.conversion_after_named_call',
 ]
 PARTIAL = {}
 RULE = ('expression trees over {numeric literal, unit name, *, /, ^} generated to depth 6 (exponents: integer-valued '
@@ -854,7 +873,10 @@ RULE = ('expression trees over {numeric literal, unit name, *, /, ^} generated t
         'back, a pool of ~100 expressions over every base dimension re-evaluated after every step as first spelled and '
         'with a blank run no earlier call has seen; refused calls of every kind (five keywords with valid / unknown / empty / '
         'wrong-kind names, a foreign keyword among five, six keywords, a seed next to 1..5 keywords) after every kind of state, '
-        'the whole table, the base units and values stored before the call read back after it; all eight style tables entry by '
+        'the whole table, the base units and values stored before the call read back after it; calls reset_units(seed, **kwargs) of '
+        'every shape (seed absent / None / int / 0 / SI, positional or keyword; 0-6 keywords in any order, up to two foreign '
+        'ones; valid / wrong-kind / unknown names); uc.model / uc.value_unit on arrays of rank 0-3 incl. empty and '
+        'one-element ones, lists, scalars, with and without units, edited shapes; all eight style tables entry by '
         'entry; distinct = distinct '
         '(configuration, string) resp. (choice) resp. (step, string) canonical form; non-trivial = the model returns a '
         'value (not an error case)')
@@ -879,7 +901,11 @@ ASSUMPTIONS = [
     'end (terms[c-1] wraps around to terms[-1]); a group consisting of the single token * or / is returned as that '
     'string and then acts as an operator of the enclosing expression: both classes are outside the model (the model '
     'answers "error") and are not sent to the real code',
-    'exception classes are not modelled: every exception of the real code corresponds to the model answering none',
+    'exception classes are not modelled: every exception of the real code corresponds to the model answering none '
+    '(except the two ValueErrors of reset_units, told apart by resetPath)',
+    'python list semantics in pyPowLoop / pyMulDivLoop (Atomman/C09.lean): terms.index, terms[i], slices; an index c-1 '
+    'that would be negative (python wraps around) has no value in the model; the error= argument of uc.model and '
+    'error_unit beyond its text being value_unit on the key error are outside the model',
     'the value part of set_literal is ast.literal_eval restricted to numbers ([+-]numeral, no leading-zero integers) and '
     'nested lists / tuples of them; 1_000, hex / complex literals, a sign separated from its digits by blanks, strings, '
     'booleans and blanks other than the four are outside the model; np.asarray on a ragged nesting raises (numpy >= 1.24)',
@@ -894,7 +920,10 @@ TRUSTED = ['numericalunits (the generated table is measured from the installed p
            'decimal power of the search oracle (python decimal, 60 digits) — two independent implementations compared with libm pow',
            'the size guard of the model driver (lean/Drivers/C09.lean: a request whose exact value would need > 2*10^5 bits is '
            'answered err:size and not compared; every other request is evaluated by the proved numAlg)',
-           'ast.literal_eval / float() on the modelled numerals', 'fractions.Fraction oracle in search()']
+           'ast.literal_eval / float() on the modelled numerals', 'fractions.Fraction oracle in search()',
+           'the template matcher of the source translator (harness/props/c09.py _unify / _match / translate_source: which '
+           'python statement is read as which Lean fragment; a source that does not fit raises TranslationError)',
+           'DataModelDict (uc.model builds one; only item assignment and lookup are used)']
 
 U = 2.0 ** -53
 EU = 16.0            # roundings between a numericalunits value and const * prod(base^dim)
@@ -3539,6 +3568,56 @@ def _o_inverse(ctx, np, uc, cfg, s, xs, shape, form, vals=None):
             return
 
 
+def _o_datamodel(ctx, np, uc, cfg, s, xs, shape):
+    """the same round trip through the data-model form: value_unit(model(x, u)) is x — shape and entries —, model writes
+    x over the exact factor, the unit under 'unit', the shape (two and more dimensions only) under 'shape'."""
+    shape = tuple(shape)
+    arr = np.array(xs, dtype=float).reshape(shape)
+    keep = arr.copy()
+    replay = {'op': 'datamodel', 'cfg': cfg, 'units': s, 'value': xs, 'shape': list(shape)}
+    if s is None:
+        v, e = Fraction(1), 0.0
+    else:
+        cls = classify(s, _unit_fr(uc), 0.0)
+        if cls[0] != 'val' or cls[1] == 0:
+            return
+        v, e = cls[1], cls[2]
+    m = _timed(uc.model, arr, s)
+    val = m['value']
+    want_list = len(shape) >= 1
+    if isinstance(val, list) != want_list or ('shape' in m) != (len(shape) >= 2) or ('unit' in m) != (s is not None):
+        ctx.violate('data-model:form', f'uc.model(array of shape {shape}, {s!r}) writes {dict(m)!r}: a number for a 0-d array, '
+                    f'a list otherwise, "shape" from two dimensions on, "unit" when units are given', replay)
+        return
+    if (s is not None and m['unit'] != s) or (len(shape) >= 2 and list(m['shape']) != list(shape)):
+        ctx.violate('data-model:form', f'uc.model(array of shape {shape}, {s!r}) writes unit {m.get("unit")!r}, shape '
+                    f'{m.get("shape")!r}', replay)
+        return
+    flat = [float(x) for x in (val if isinstance(val, list) else [val])]
+    ok = [_wide_ok(Fraction(x) / v) and _wide_ok(Fraction(x)) and _wide_ok(v) for x in xs]
+    if len(flat) != len(xs):
+        ctx.violate('data-model:form', f'uc.model(array of shape {shape}, {s!r}) writes {len(flat)} entries', replay)
+        return
+    for x, g, o in zip(xs, flat, ok):
+        want = Fraction(x) / v
+        if o and not abs(Fraction(g) - want) <= Fraction((e + 5.0) * 1.5 * U) * abs(want):
+            ctx.violate('data-model:value', f'uc.model({x!r}, {s!r}) after {_cfg_str(cfg)} writes {g!r}; {x!r} over the '
+                        f'factor {_f(v)!r} is {_f(want)!r}', replay)
+            return
+    back = np.asarray(_timed(uc.value_unit, m))
+    if not np.array_equal(arr, keep):
+        ctx.violate('inverse:argument-changed', f'uc.model / uc.value_unit({s!r}) change the array handed in', replay)
+        return
+    if back.shape != shape:
+        ctx.violate('inverse:shape', f'value_unit(model(x, {s!r})) changes the shape {shape} -> {back.shape}', replay)
+        return
+    for x, b, o in zip(xs, back.ravel().tolist(), ok):
+        if o and not abs(b - x) <= 4 * U * abs(x):
+            ctx.violate('inverse', f'value_unit(model(x, {s!r})) after {_cfg_str(cfg)}: x = {x!r} comes back as {b!r} '
+                        f'(model wrote {dict(m)!r})', replay)
+            return
+
+
 def _base_expr(rng, t, dim):
     """an expression of the given dimension written with other names: a numeric prefactor times/over powers of one
     randomly chosen name per base dimension."""
@@ -3827,6 +3906,13 @@ def search(ctx, broken):
                 ctx.stats.case('oracle:inverse', (_cfg_str(cfg), s, tuple(xs), shape, form))
                 _guard(ctx, 'inverse', {'op': 'inverse', 'cfg': cfg, 'units': s, 'value': xs, 'shape': list(shape),
                                         'form': form}, _o_inverse, ctx, np, uc, cfg, s, xs, shape, form, vals)
+            for s in [None, None, 'angstrom', 'eV', 'GPa', 'eV/angstrom^3'] * 2 + rng.sample(valid, min(len(valid), ctx.n(60, 400) * mult)):
+                shape = rng.choice(SHAPES + [(4,), (2, 3), (1, 1, 1), (3, 1)])
+                cnt = int(np.prod(shape)) if shape else 1
+                xs = gen_values(rng, 'array', cnt)
+                ctx.stats.case('oracle:data-model', (_cfg_str(cfg), s, tuple(xs), shape))
+                _guard(ctx, 'data-model', {'op': 'datamodel', 'cfg': cfg, 'units': s, 'value': xs, 'shape': list(shape)},
+                       _o_datamodel, ctx, np, uc, cfg, s, xs, shape)
             simple = ['', 'scaled', 'angstrom', 'eV', 'GPa', 'kg * m', 'eV/angstrom^3', ' ( m ) ']
             for s in simple * 6 + rng.sample(valid, min(len(valid), ctx.n(100, 600) * mult)):
                 value = rng.choice(VALUE_LITS if rng.random() < 0.65 else LIST_LITS)
@@ -3905,6 +3991,14 @@ def replay(ctx, payload):
             _apply(cfg)
             _guard(ctx, 'inverse', r, _o_inverse, ctx, np, uc, cfg, r['units'], r['value'], tuple(r['shape']),
                    r.get('form', r.get('as_list', False)))
+        elif op == 'datamodel':
+            _apply(cfg)
+            _guard(ctx, 'data-model', r, _o_datamodel, ctx, np, uc, cfg, r['units'], r['value'], tuple(r['shape']))
+        elif op in ('ucmodel', 'valunit') and ctx.driver is not None:
+            _sync(ctx, cfg)
+            _corr_model(ctx, random.Random(1), uc, cfg, 200)
+        elif op == 'rpath' and ctx.driver is not None:
+            _corr_rpath(ctx, random.Random(1), uc, 400)
         elif op == 'indep':
             _apply({'kind': 'SI'})
             si_vals = _unit_fr(uc)
@@ -3974,11 +4068,20 @@ MANIFEST = {
             'set_in_units / get_in_units / set_literal / reset_units / style.unit against the compiled model on '
             'grammar-generated and malformed strings under SI, default, seeded and named working units, and of whole '
             'sessions (all ordered pairs of configurations differing in one base quantity, random one-keyword walks) '
-            'against the session model.',
-    'note': 'Trusted: Lean kernel + propext/Classical.choice/Quot.sound; the table translators (harness/props/c09.py); '
+            'against the session model. Source tie: unitconvert.py itself is translated with ast on every run '
+            '(Generated/UnitconvertSource.lean: tokeniser branches and character sets, parenthesis counter, the two while '
+            'loops of parse as python list indexing / slicing with the strings, positions, slices and operators of the '
+            'source, the decision chain and formulas of reset_units, the split loop of set_literal, the operators of '
+            'set_in_units / get_in_units, value_unit / model, the default call in __init__.py) and every generated '
+            'definition is proved equal to the model; the loops as written are proved to compute the single passes the '
+            'precedence theorem is about; reset_units(seed, **kwargs) refuses exactly when keywords come with a seed or '
+            'number more than four; value_unit(model(x, u)) = x for every rank.',
+    'note': 'Trusted: Lean kernel + propext/Classical.choice/Quot.sound; the table translators and the ast template '
+            'matcher of the source translator (harness/props/c09.py); '
             'numericalunits and numpy; x**0.5 is a parameter with r*r = x; float rounding by first-order bounds derived '
             'from the expression tree; float ** float for non-integer exponents is a parameter with three assumed laws; '
             'irrational exponents, rtHz, exotic float() spellings and two malformed classes '
             '(leading ^ loops forever, a parenthesised lone * or / acts as an operator) are outside the model.',
-    'technique': 'Lean 4 theorems over a hand-written model + translator-generated tables + differential correspondence',
+    'technique': 'Lean 4 theorems over a hand-written model proved equal to definitions regenerated from the source (ast) '
+                 '+ translator-generated tables + differential correspondence',
 }
